@@ -1,6 +1,6 @@
 (* Model/Codec.v — instance of the model at cand := positive and the val <-> model codecs.
    Glue, not model: no proofs. *)
-From VK Require Import Base Core STV.
+From VK Require Import Base Core STV Pairwise Rules.
 
 Definition cand := positive.
 Definition ceqb := Pos.eqb.
@@ -104,3 +104,31 @@ Definition dStvCfg (v : val) : res stv_cfg :=
             tb')
   | _ => err EScript
   end.
+
+Definition dRule (v : val) : res rule :=
+  match v with
+  | VL [VZ 1; cfg] => let! c := dStvCfg cfg in ok (RSTV c)
+  | VL [VZ 2; m; tb] => let! m' := dZ m in let! tb' := dTb tb in ok (RPlurality m' tb')
+  | VL [VZ 3; m; vec; tb] =>
+      let! m' := dZ m in let! v' := dOpt (dList dQ) vec in let! tb' := dTb tb in ok (RBorda m' v' tb')
+  | VL [VZ 4; m; L; k; tb] =>
+      let! m' := dZ m in let! L' := dQ L in let! k' := dOpt dQ k in let! tb' := dTb tb in
+      ok (RRating m' L' k' tb')
+  | VL [VZ 5; m; k; tb] =>
+      let! m' := dZ m in let! k' := dQ k in let! tb' := dTb tb in ok (RLimited m' k' tb')
+  | VL [VZ 6; m; k; tb] =>
+      let! m' := dZ m in let! k' := dOpt dZ k in let! tb' := dTb tb in ok (RBloc m' k' tb')
+  | VL [VZ 7] => ok RDominating
+  | VL [VZ 8; m] => let! m' := dZ m in ok (RCondoBorda m')
+  | VL [VZ 9; tb] => let! tb' := dTb tb in ok (RTopTwo tb')
+  | VL [VZ 10; m1; m2; cfg] =>
+      let! a := dZ m1 in let! b := dZ m2 in let! c := dStvCfg cfg in ok (RAlaska a b c)
+  | VL [VZ 11; m] => let! m' := dZ m in ok (RRandomDictator m')
+  | VL [VZ 12; m] => let! m' := dZ m in ok (RBoosted m')
+  | _ => err EScript
+  end.
+
+Definition ePwc (g : pwc cand) : val :=
+  VL [eCset (pw_cands g);
+      VS (map (fun e => VL [ePos (fst (fst e)); ePos (snd (fst e)); VQ (snd e)]) (pw_dict g));
+      eRanking (pw_tiers g)].
